@@ -32,6 +32,9 @@ var regularPool = []string{
 	"alpha", "disk full", "key: value", "100% done", "it's", "say \"hi\"", "na\xc3\xafve caf\xc3\xa9",
 	"a\nb", "x: y: z", "trailing: x", "\xe2\x80\x9cquoted\xe2\x80\x9d", "tab\there", "%s %d %v", "[bracket]",
 	"\xe6\x97\xa5\xe6\x9c\xac", "path/to/file.go:12", "a=b", "<nil>", "colon:nospace", "l1\nl2\nl3",
+	// seams: what extractPrefix / the ": " joins must not confuse
+	"ends with colon:", "ends with space ", "double colon::", ":starts with colon", " leading space", "while dialing 10.0.0.1:",
+	"sep : inside", ": ", "x: ", "a:  b",
 }
 
 var hostilePool = []string{
